@@ -16,6 +16,7 @@ EXPLANATION = (
     "and the verifier's reader side uses the same function. C14.S5: no process-global mutable state takes part in the default build. "
     "Pairwise distinctness and bit frequencies over 10^5 salts are statistical statements about runs and are not decided; ThreadRng's quality is trusted."
     " C14.S1 is decided on the disclosure-text term (sa/dtext.py): the salt element is an argument-less generator call, drawn once by the constructor, or once per hand-over in the caller that draws it (judged in that caller\u2019s view with closures and pipelines spliced)."
+    " C14.S6: all_disclosures is re-initialised by every issuance before it is first read or appended to: a reused issuer never re-emits (and so re-uses the salts of) disclosures of an earlier call."
 )
 ASSUMPTIONS = [
     "rand::rngs::ThreadRng is a CSPRNG (ChaCha12, OS-seeded, periodically reseeded), one generator per thread by type",
